@@ -113,6 +113,8 @@ func TestVF_Server(t *testing.T) {
 			vfBuildScenario(rec, sc)
 		case "retry":
 			vfRetryScenario(t, rec, sc)
+		case "http":
+			vfHttpScenario(rec, sc)
 		case "wtask":
 			// the link watcher task around Watcher.Watch: unavailable on this OS (not-exist) is not an error
 			var werr error
@@ -431,4 +433,101 @@ func vfRetryScenario(t *testing.T, rec *vfRec, sc map[string]any) {
 		rec.raw(map[string]any{"ev": "retry", "times": times, "err": err != nil, "outcomes": outs, "cancel": cancelAfter,
 			"ret_ms": int(time.Since(start) / time.Millisecond)})
 	})
+}
+
+// vfHttpScenario runs the real httpTask.Run on a loopback address in real time: the driver may keep the address
+// occupied for a while (the listen attempts at 0, 3 s, ... fail until it lets go), probes the configured handler once
+// the task reports ready, cancels, and probes again after Run has returned. An observation that depends on the
+// machine being responsive (late readiness, late return) is only recorded when it is seen twice in a row.
+func vfHttpScenario(rec *vfRec, sc map[string]any) {
+	id := vfStr(sc, "id", "")
+	busy, cancelAt := vfInt(sc, "busy_ms", 0), vfInt(sc, "cancel_ms", 500)
+	var ev map[string]any
+	for try := 0; try < 2; try++ {
+		ev = vfHttpOnce(id, busy, cancelAt)
+		T := (busy + 2999) / 3000 * 3000
+		ready, ret, cancel := ev["ready"].(int), ev["ret"].(int), ev["cancel"].(int)
+		late := ret < 0 || ret > cancel+1500 || (cancel > T+2500 && (ready < 0 || ready > T+1500))
+		if !late {
+			break
+		}
+	}
+	rec.raw(map[string]any{"ev": "reset", "id": id, "n": 0})
+	rec.raw(ev)
+}
+
+func vfHttpProbe(addr, marker string) bool {
+	c := &http.Client{Timeout: 2 * time.Second, Transport: &http.Transport{DisableKeepAlives: true}}
+	resp, err := c.Get("http://" + addr + "/")
+	if err != nil {
+		return false
+	}
+	defer resp.Body.Close()
+	return resp.Header.Get("X-Vf") == marker
+}
+
+func vfHttpOnce(id string, busy, cancelAt int) map[string]any {
+	l0, err := net.Listen("tcp", "127.0.0.1:0")
+	if err != nil {
+		panic("vf: no loopback listener: " + err.Error())
+	}
+	addr := l0.Addr().String()
+	h := http.HandlerFunc(func(w http.ResponseWriter, r *http.Request) {
+		w.Header().Set("X-Vf", id)
+		w.WriteHeader(http.StatusNoContent)
+	})
+	task := &httpTask{addr: addr, h: h, ll: log.New(io.Discard, "", 0), readyC: make(chan struct{})}
+	ms := func(t0 time.Time) int { return int(time.Since(t0) / time.Millisecond) }
+	if busy == 0 {
+		l0.Close()
+	}
+	start := time.Now()
+	if busy > 0 {
+		time.AfterFunc(time.Duration(busy)*time.Millisecond, func() { l0.Close() })
+	}
+	ctx, cancel := context.WithCancel(context.Background())
+	defer cancel()
+	retC := make(chan error, 1)
+	go func() { retC <- task.Run(ctx) }()
+	ready, served, ret, rerr := -1, false, -1, false
+	cancelT := time.After(time.Duration(cancelAt) * time.Millisecond)
+	returned := false
+	select {
+	case <-task.Ready():
+		ready = ms(start)
+		served = vfHttpProbe(addr, id)
+		select {
+		case <-cancelT:
+		case e := <-retC:
+			ret, rerr, returned = ms(start), e != nil, true
+		}
+	case <-cancelT:
+	case e := <-retC:
+		ret, rerr, returned = ms(start), e != nil, true
+	}
+	cancelMs := ms(start)
+	cancel()
+	if !returned {
+		select {
+		case e := <-retC:
+			ret, rerr = ms(start), e != nil
+		case <-time.After(10 * time.Second):
+		}
+	}
+	if ready < 0 {
+		select {
+		case <-task.Ready():
+			ready = ms(start)
+		default:
+		}
+	}
+	alive := false
+	if ret >= 0 {
+		alive = vfHttpProbe(addr, id)
+	}
+	if busy > 0 {
+		l0.Close()
+	}
+	return map[string]any{"ev": "http", "busy": busy, "cancel": cancelMs, "ready": ready, "served": served,
+		"ret": ret, "err": rerr, "alive": alive}
 }
